@@ -63,3 +63,9 @@ claim('C05',
       'counts decremented by one, Return absorbed only by calls, Throw only by try), declaration vs assignment layering over the '
       'Env parent chain, short-circuit polarity of and/or/coalesce and branch exclusivity of if.',
       'exhaustive arm tables from HIR + CFG cycle/dominance/guard-polarity queries over MIR')
+claim('C17',
+      'Decides structural agreement of the freeze traversal with the evaluator, not semantic equivalence over programs: scope copies '
+      'exactly where evaluation scopes (per switch arm, catch-only, lambda, loops), binder placement and declared_only flags, identity '
+      'rewrite of all Expr and Lvalue arms, every LocExpr/Lvalue child field produced by the freeze family, error exits confined to '
+      'warn == false, fully guarded constant folds, and the FreezeEnv built by Expr::Freeze.',
+      'sibling-traversal cross-check over HIR arms + field provenance over MIR')
